@@ -191,3 +191,41 @@ _t11 = tasks
 def tasks(tier):
     return _t11(tier) + [('not_cpi', t_not_cpi), ('constraints', t_constraints)]
 WORLD = ('marginfi', 'typecrate', 'drift', 'kamino', 'solend')
+
+
+# ---------------------------------------------------------------- C11.f: the account-flag helpers themselves (every bracket and exclusion above goes through them)
+def t_flag_helpers(world, prefix='C11.f'):
+    obs = []
+    fi = STRUCTS['MarginfiAccount'].index('account_flags')
+    FLAGS = [1, 2, 4, 8, 16, 32, 64]
+    bit = lambda w_, b: (w_ / b) % 2
+    for name in ('set_flag', 'unset_flag', 'get_flag'):
+        f = world.fn(r'marginfi_account\.rs[^>]*>::%s$' % name, pred=lambda f_: 'MarginfiAccount' in f_.params[0][1])
+        ob = Ob(f'{prefix}.{name}', {'set_flag': 'MarginfiAccount::set_flag(f): bit f set, every other bit unchanged', 'unset_flag': 'MarginfiAccount::unset_flag(f): bit f CLEAR afterwards whatever it was before, every other bit unchanged',
+                                     'get_flag': 'MarginfiAccount::get_flag(f) == (bit f is set)'}[name], [f.name], 'all 2^64 flag words; each of the seven single-bit account flags; nothing else written')
+        for fl in FLAGS:
+            eng = world.engine(merge=False)
+            acct = eng.ex.fresh(f.params[0][1], 'acct')
+            extra = [IntV(z3.IntVal(fl), 'u64')] + ([eng.ex.fresh('bool', 'msg')] if len(f.params) > 2 else [])
+            res = eng.run_fn(f, [acct] + extra); ob.paths += len(res)
+            old = z3.Int(f'acct*.{fi}')
+            for r in returned(res):
+                if ob.witness(eng, r, []) is False: continue
+                if name == 'get_flag':
+                    ob.prove(eng, r, [], r['ret'].e == (bit(old, fl) == 1), f'flag {fl}: result == bit test', role='flag-helper')
+                    continue
+                a = eng.deref_val(r['roots'][0])      # final state of this path
+                new = ev(fget(eng, a, 'MarginfiAccount', 'account_flags'))
+                want_bit = 1 if name == 'set_flag' else 0
+                ob.prove(eng, r, [], z3.And(bit(new, fl) == want_bit, new - bit(new, fl) * fl == old - bit(old, fl) * fl), f'flag {fl}: bit == {want_bit} afterwards, other bits unchanged', role='flag-helper')
+                others = [k for k in a.fields if isinstance(k, int) and k != fi]
+                ob.queries += 1
+                if others: ob.sat += 1; ob.cex.append({'ob': ob.oid, 'label': f'writes other account fields {others}', 'role': 'flag-helper-frame', 'model': {}, 'replay': None})
+                else: ob.unsat += 1
+        ob.need_witness(); obs.append(ob)
+    return obs
+
+
+_t11b = tasks
+def tasks(tier):
+    return _t11b(tier) + [('flag_helpers', t_flag_helpers)]
